@@ -38,6 +38,17 @@ CHECKS = {
         "note": "Trusted: TLC; the abstraction of byte code to index-addressed instructions in the harness; the two guarded hooks.",
         "technique": "TLA+ transcription model-checked exhaustively (small scope) + artefact validation of real optimizer in/out pairs + twin runs",
     },
+    "C13": {
+        "text": ("Modules.tla models the import-graph compilation (cycle check on the parent chain, root cache, store at every level); TLC "
+                 "checks termination, 'fails iff a cycle is reachable', compiled-once and simple-path over every graph of the bounded "
+                 "module set with ordered import lists, and every such graph is then compiled by the real compiler (verdict and per-module "
+                 "compile counts must match). TengoSem decides the run-time half (isolation, export immutability, undefined without "
+                 "export, body re-run per import) on the modules program family; path-like import names next to decoy files must not "
+                 "resolve when file import is disabled."),
+        "design_ref": "DESIGN.md 5.7, 8/C13",
+        "note": "Trusted: TLC; compile count observed as files added to the FileSet; decoy-file test observes results, not syscalls (strace not used).",
+        "technique": "TLA+ model checking of the import-graph algorithm over all small graphs + exhaustive replay into the real compiler; TengoSem for module run-time semantics",
+    },
     "C14": {
         "text": ("TengoSem records the innermost executing statement and the stack of call-site statements of every run-time error (it has no "
                  "offsets, source maps or frames). For failing programs (every failing operation kind x call depth 0-4 x statement form, next to "
